@@ -1059,6 +1059,17 @@ pub fn c06(property: &str, seed: u64) -> Plan {
             p.scenario = "c06-player-dies".into();
         }
     }
+    // with two spectators the host may cut one loose through the API; the other must not notice
+    let specs: Vec<usize> = (0..p.nodes.len()).filter(|&i| matches!(p.nodes[i].kind, NodeKind::Spectator { .. })).collect();
+    if specs.len() == 2 && c.chance(&[15], 300_000) {
+        if let (NodeKind::Spectator { host: h0, .. }, NodeKind::Spectator { host: h1, .. }) = (&p.nodes[specs[0]].kind, &p.nodes[specs[1]].kind) {
+            if h0 == h1 {
+                let which = c.range(&[16], 0, 1) as usize;
+                p.api.push(ApiCall { node: *h0, at_us: c.range(&[17], ms(400), p.horizon_us), call: Api::Disconnect { handle: p.cfg.num_players + which } });
+                p.scenario = format!("{}+spectator-disconnected-by-api", p.scenario);
+            }
+        }
+    }
     p.oracle.spectator_stream = true;
     p
 }
@@ -1433,6 +1444,20 @@ pub fn c16(property: &str, seed: u64, index: u64) -> Plan {
             };
             let at = if c.chance(&[9, j], 150_000) { c.range(&[10, j], 0, ms(300)) } else { c.range(&[11, j], 0, p.horizon_us) };
             p.api.push(ApiCall { node, at_us: at, call });
+        }
+        // "already disconnected": in two-peer runs a real disconnect_player (kept in the twin) followed
+        // by a second call for the same handle, which must be rejected
+        if peers.len() == 2 && c.chance(&[12], 300_000) {
+            let node = peers[c.range(&[13], 0, 1) as usize];
+            let other = peers.iter().copied().find(|&x| x != node).unwrap();
+            let handle = match &p.nodes[other].kind {
+                NodeKind::Peer { locals } => locals[0],
+                _ => unreachable!(),
+            };
+            let t1 = c.range(&[14], ms(500), p.horizon_us.max(ms(600)));
+            p.api.push(ApiCall { node, at_us: t1, call: Api::Disconnect { handle } });
+            p.api.push(ApiCall { node, at_us: t1 + c.range(&[15], 0, ms(800)), call: Api::DisconnectMisuse { handle } });
+            p.scenario = "c16-misuse+already-disconnected".into();
         }
         return p;
     }
